@@ -31,6 +31,13 @@ BUILTIN_BASES = ('dict', 'list', 'Exception', 'set')
 NAME_POOL = ('alpha', 'beta', 'gamma', 'delta', 'run', 'value', 'name', 'size', 'kind', 'load',
              'save', 'state', 'width', 'owner', 'get', 'copy')
 INST_POOL = ('x', 'y', 'cache', 'data', 'flag', 'count')
+PEER_POOL = ('peer', 'root', 'link')          # self attributes holding an instance of a project class
+SPAWN_POOL = ('spawn', 'make')                # methods returning an instance of a project class
+MARK_POOL = ('mark', 'seen')                  # assigned only through an alias of another object, never through self
+# dunder methods both object and most builtin types define (or that builtin containers define): (params, return)
+DUNDERS = (('__repr__', '', "'r'"), ('__str__', '', "'s'"), ('__eq__', ', other', 'True'), ('__hash__', '', '1'),
+           ('__getitem__', ', k', '1'), ('__len__', '', '0'), ('__iter__', '', 'iter(())'),
+           ('__contains__', ', x', 'False'), ('__call__', ', *a', '1'))
 VALUES = ('1', "'s'", '[]', '{}', 'None', '(1, 2)', '2.5', "b'b'", 'True')
 
 IMPLICIT_CLASS_VARS = frozenset(('__module__', '__qualname__', '__dict__', '__weakref__', '__doc__',
@@ -247,8 +254,37 @@ class _Gen(object):
                     self.features.add('tuple-class-attr')
                     members.append({'kind': 'value', 'name': name, 'names': [name, other],
                                     'lines': ['%s, %s = 5, 6' % (name, other)]})
+        if self.chance(0.4):
+            for dn, params, ret in rng.sample(DUNDERS, rng.randint(1, 3)):
+                self.features.add('dunder-method')
+                members.insert(rng.randint(0, len(members)),
+                               {'kind': 'method', 'name': dn, 'names': [dn], 'queryable': 'self', 'first': 'self',
+                                'head': ['def %s(self%s):' % (dn, params)], 'assigns': self.self_assigns(c, 'self', 1, init=True),
+                                'tail': ['    return %s' % ret]})
+        if self.chance(0.2):
+            # a method returning an instance of a project class (used by `t = self.spawn(); t.mark = 1`)
+            sn = rng.choice(SPAWN_POOL)
+            target = rng.choice(self.classes + [c])['name']
+            self.features.add('method-returning-instance')
+            members.append({'kind': 'method', 'name': sn, 'names': [sn], 'queryable': 'self', 'first': 'self',
+                            'head': ['def %s(self):' % sn], 'assigns': [], 'tail': ['    return {K:%s}()' % target]})
+            c['spawn'] = sn
         if not members:
             members.append(self.method(c, rng.choice(self.pool)))
+        # assignments through an alias: of a self attribute holding an instance, or of the result of a self method
+        for m in members:
+            if m['kind'] == 'method' and m['name'] != '__init__' and not m['name'].startswith('__') and self.chance(0.15):
+                mark = rng.choice(MARK_POOL)
+                first = m['first']
+                if c.get('spawn') and m['name'] != c['spawn'] and self.chance(0.5):
+                    self.features.add('assign-through-alias-of-self-method-result')
+                    m['alias'] = ['t = %s.%s()' % (first, c['spawn']), 't.%s = 1' % mark]
+                else:
+                    self.features.add('assign-through-alias-of-self-attribute')
+                    peer = rng.choice(PEER_POOL)
+                    target = rng.choice(self.classes + [c])['name']
+                    m['alias'] = ['%s.%s = {K:%s}()' % (first, peer, target), 'r = %s.%s' % (first, peer),
+                                  'r.%s = True' % mark]
         c['members'] = members
 
     def method(self, c, name, init=False):
@@ -263,7 +299,7 @@ class _Gen(object):
         assigns = self.self_assigns(c, selfname, init=init)
         tail = []
         if not init and self.chance(0.5):
-            tail.append('    return %s' % rng.choice(VALUES + ('%s' % selfname,)))
+            tail.append('    return %s' % rng.choice(VALUES + (selfname, '%s.%s' % (selfname, rng.choice(self.ipool)))))
         return {'kind': 'method', 'name': name, 'names': [name], 'queryable': 'self', 'first': selfname,
                 'head': ['def %s(%s%s):' % (name, selfname, args)], 'assigns': assigns, 'tail': tail}
 
@@ -276,6 +312,12 @@ class _Gen(object):
             self.features.add('property-setter')
             m['setter'] = True
             m['post'] = ['', '@%s.setter' % name, 'def %s(self, v):' % name, '    self._%s = v' % name]
+            if self.chance(0.7):
+                # the getter reads what the setter assigns (both through self)
+                m['tail'] = ['    return self._%s' % name]
+                self.features.add('property-getter-reads-setter-attr')
+            if self.chance(0.5):
+                m['post'].append('    self.%s = True' % self.rng.choice(self.ipool))
             m['queryable'] = None       # two defs in one member: keep insert-point bookkeeping simple
         return m
 
@@ -297,7 +339,7 @@ class _Gen(object):
                     elif last is None:
                         last = stmt if len(attrs) == 1 else '%s.%s = 7' % (m['first'], bad[0])
                         self.features.add('self-assign-to-setterless-property-name')
-                body = ['    %s' % st for st in safe + ([last] if last else [])]
+                body = ['    %s' % st for st in safe + m.get('alias', []) + ([last] if last else [])]
                 if not body and not m['tail']:
                     body = ['    pass']
                 m['lines'] = m['head'] + body + m['tail'] + m.get('post', [])
@@ -404,6 +446,9 @@ class _Gen(object):
             for ln in m['lines']:
                 if deco:
                     ln = ln.replace('{%s}' % deco, dexpr)
+                for kname in re.findall(r'\{K:(\w+)\}', ln):
+                    kc = next(k for k in self.classes + [c] if k['name'] == kname)
+                    ln = ln.replace('{K:%s}' % kname, self.ref(mod, kc['mod'], kname)[0])
                 out.append(('    ' + ln) if ln else '')
             if m.get('queryable'):
                 # line numbers (1-based, in the final file) are fixed up by the caller through `info`
